@@ -68,6 +68,7 @@ func executeCtx(t *testing.T, prop string, seed uint64, p *CtxPlan) *core.Result
 		w := simnet.NewWorld(seed)
 		reps := max(1, p.Reps)
 		for rep := 0; rep < reps; rep++ {
+			core.Beat()
 			res.Evals++
 			stage = fmt.Sprintf("rep %d", rep)
 			name := fmt.Sprintf("%d", rep)
